@@ -426,13 +426,13 @@ class Interp:
             if h == 'fp.abs':
                 return ['ite', ['>=', a[0], '0.0'], a[0], ['-', a[0]]]
             if h == 'fp.min':
-                return ['ite', ['<=', a[0], a[1]], a[0], a[1]]
+                return self.rminmax('<=', a)
             if h == 'fp.max':
-                return ['ite', ['>=', a[0], a[1]], a[0], a[1]]
+                return self.rminmax('>=', a)
             if h in ('fp.eq', 'fp.lt', 'fp.leq', 'fp.gt', 'fp.geq'):
                 return [{'fp.eq': '=', 'fp.lt': '<', 'fp.leq': '<=', 'fp.gt': '>', 'fp.geq': '>='}[h], a[0], a[1]]
             if h == 'fp.isNaN':
-                return ['=', a[0], 'r_nan'] if a[0] == 'r_nan' else 'false'
+                return ['=', a[0], 'r_nan']
             if h == 'fp.isInfinite':
                 return ['or', ['=', a[0], 'r_inf'], ['=', a[0], ['-', 'r_inf']]]
             if h == 'fp.isSubnormal':
@@ -470,6 +470,12 @@ class Interp:
         ret = 'Bool' if h in FP_PREDS else BV(W)
         self.uf(name, [BV(W)] * len(a), ret)
         return [name] + a
+
+    def rminmax(self, cmp, a):
+        # IEEE min/max ignore a NaN operand; NaN is the distinguished (otherwise unconstrained) real r_nan,
+        # which a genuine counterexample can always keep away from its input values
+        return ['ite', ['=', a[0], 'r_nan'], a[1], ['ite', ['=', a[1], 'r_nan'], a[0],
+                ['ite', [cmp, a[0], a[1]], a[0], a[1]]]]
 
     def rround(self, rm, x):
         if rm == 'RTN':
@@ -512,9 +518,9 @@ class Interp:
             if name == 'fabs':
                 return ['ite', ['>=', a[0], '0.0'], a[0], ['-', a[0]]]
             if name == 'fmin':
-                return ['ite', ['<=', a[0], a[1]], a[0], a[1]]
+                return self.rminmax('<=', a)
             if name == 'fmax':
-                return ['ite', ['>=', a[0], a[1]], a[0], a[1]]
+                return self.rminmax('>=', a)
             if name == 'fma':
                 return ['+', ['*', a[0], a[1]], a[2]]
             if name in ('floor', 'ceil', 'trunc', 'round', 'rint', 'nearbyint'):
@@ -605,6 +611,13 @@ class Interp:
     def finish(self):
         """axioms that depend on the whole file (literal values for b2r)"""
         lines = []
+        if self.mode == 'R' and UFPFX + 'in_f64' in self.funret:
+            # R inputs are reals: none of them is the distinguished NaN value
+            # and all lie in the finite f64 range
+            mx = str((2 ** 53 - 1) * 2 ** 971) + '.0'
+            for k in range(512):
+                x = f'({UFPFX}in_f64 (_ bv{k} 32))'
+                lines.append(f'(assert (and (not (= {x} r_nan)) (<= (- {mx}) {x} {mx})))')
         if self.mode == 'R':
             for W in (64, 32):
                 if f'b2r{W}' in self.ufdecl:
